@@ -470,10 +470,13 @@ impl FuncSpec {
             Source::Spline => 3,
         };
         if self.ends.len() > min_len {
-            for i in 0..self.ends.len() {
+            for (a, b) in removal_ranges(self.ends.len()) {
+                if self.ends.len() - (b - a) < min_len {
+                    continue;
+                }
                 let mut s = self.clone();
-                s.ends.remove(i);
-                s.coefs.remove(i);
+                s.ends.drain(a..b);
+                s.coefs.drain(a..b);
                 out.push(s);
             }
         }
